@@ -94,8 +94,8 @@ func runC05(s *simrt.Sim) {
 	if len(rrs) > 0 {
 		tasks = append(tasks, simrt.GoNamed("algos", nil, func() {
 			me := simrt.Current()
-			for k := 0; k < callsPer+3; k++ {
-				rr := rrs[k%len(rrs)]
+			for k := 0; k < 3*(callsPer+3); k++ {
+				rr := rrs[(k/5)%len(rrs)]
 				algo := k % 5
 				quiet := atomic.LoadInt32(&mutatorsDone) == 1
 				before := me.Steps
@@ -112,7 +112,7 @@ func runC05(s *simrt.Sim) {
 		}))
 	}
 	if !nofault {
-		nflip := tp.Range(0, 8, "n_flips")
+		nflip := tp.Range(0, 14, "n_flips")
 		flips := make([][2]int, nflip)
 		for i := range flips {
 			flips[i] = [2]int{tp.Draw(len(known)+1, "flip.which"), tp.Draw(2, "flip.to")}
